@@ -443,4 +443,143 @@ def r07_7(ctx):
             ctx.ob("R07.7", f"{name}:inf-shortcut@{lo}", ok, fn.loc(ln), f"infinity is returned for exponent >= {lo}; mathematically safe for >= {imin}" + ("" if ok else ": finite values up to f64::MAX are reported as infinite (rejected)"))
 
 
-RULES = [("R07.1", r07_1), ("R07.3", r07_3), ("R07.4", r07_4), ("R07.5", r07_5), ("R07.6", r07_6), ("R07.7", r07_7)]
+def _exp_interval(fn, call_block, exp_param):
+    """interval of the decimal exponent parameter on every path to call_block, from the dominating
+    comparisons of (a copy of) the parameter with constants and Range::contains(&exp)"""
+    lo, hi = None, None
+    prog_consts = []
+    for b, i, s in fn.assigns():
+        rv = s["rv"]
+        if rv["k"] != "binop" or rv["op"] not in ("Lt", "Le", "Gt", "Ge") or not fn.dominates(b, call_block):
+            continue
+        for x, c, flip in ((rv["a"], rv["b"], False), (rv["b"], rv["a"], True)):
+            l = op_local(x)
+            if l is None or fn.src(l) != ("param", exp_param):
+                continue
+            cv = _cval(None, fn, c) if c["k"] == "const" and "int" in c else None
+            if cv is None and op_local(c) is not None:
+                # constant folded through arithmetic on literals: evaluate
+                from ..analysis import affine_of
+                af = affine_of(fn, c)
+                if af and af[0] == 0:
+                    cv = af[1]
+                    if cv >= 1 << 31:
+                        cv -= 1 << 32
+            if cv is None:
+                continue
+            op = rv["op"]
+            if flip:
+                op = {"Lt": "Gt", "Le": "Ge", "Gt": "Lt", "Ge": "Le"}[op]
+            e = bool_switch_edges(fn, s["lhs"][0])
+            if not e:
+                continue
+            on_true = call_block in fn.reachable_from(e[0]) and call_block not in fn.reachable_from(e[1], avoid={e[0]})
+            on_false = call_block in fn.reachable_from(e[1]) and call_block not in fn.reachable_from(e[0], avoid={e[1]})
+            if on_false:
+                op = {"Lt": "Ge", "Le": "Gt", "Gt": "Le", "Ge": "Lt"}[op]
+            elif not on_true:
+                continue
+            if op == "Lt":
+                hi = cv - 1 if hi is None else min(hi, cv - 1)
+            elif op == "Le":
+                hi = cv if hi is None else min(hi, cv)
+            elif op == "Gt":
+                lo = cv + 1 if lo is None else max(lo, cv + 1)
+            elif op == "Ge":
+                lo = cv if lo is None else max(lo, cv)
+    # RangeInclusive::contains(&range_const, &exp)
+    for b, t in fn.calls():
+        if callee_is(t, "contains") and fn.dominates(b, call_block) and "Range" in t["callee"]:
+            a1 = op_local(t["args"][1]) if len(t["args"]) > 1 else None
+            if a1 is None:
+                continue
+            sl, leaves = backward_slice(fn, [a1])
+            if ("param", exp_param) not in leaves:
+                continue
+            e = bool_switch_edges(fn, t["dest"][0])
+            if not e or not (call_block in fn.reachable_from(e[0]) and call_block not in fn.reachable_from(e[1], avoid={e[0]})):
+                continue
+            r0 = op_local(t["args"][0])
+            rsl, rleaves = backward_slice(fn, [r0]) if r0 is not None else (set(), [])
+            vals = []
+            incl = "RangeInclusive" in t["callee"]
+            for lf in rleaves:
+                if lf[0] == "const":
+                    if "int" in lf[1]:
+                        vals.append(_cval(None, fn, lf[1]))
+                    elif lf[1].get("bytes"):
+                        raw = bytes.fromhex(lf[1]["bytes"])
+                        if len(raw) in (8, 12):
+                            vals += [int.from_bytes(raw[0:4], "little", signed=True), int.from_bytes(raw[4:8], "little", signed=True)]
+            vals = [v for v in vals if v is not None]
+            if len(vals) >= 2:
+                a, bb_ = min(vals), max(vals)
+                lo = a if lo is None else max(lo, a)
+                hh = bb_ if incl else bb_ - 1
+                hi = hh if hi is None else min(hi, hh)
+    return lo, hi
+
+
+def r07_8(ctx):
+    """range guards of the two float fast paths that build a result without a subnormal / overflow step:
+    parse_floating_normal_fast(exp, sig) assembles IEEE bits directly and is correct only for a normal,
+    finite result: with sig < 2^64 that needs -307 <= exp <= 288; parse_float_fast multiplies or divides by an
+    exact power of ten and needs -22 <= exp <= 37 (and sig < 2^53)"""
+    prog = ctx.prog()
+    f = prog.fns.get("sonic_number::parse_float")
+    if f is None:
+        ctx.fail_closed("R07.8", "sonic_number::parse_float")
+        return
+    expp = None
+    for i in range(1, f.argc + 1):
+        if f.locals[i]["ty"] == "i32":
+            expp = i
+    if expp is None:
+        ctx.fail_closed("R07.8", "parse_float: exponent parameter")
+        return
+    for callee, lo_min, hi_max, why in (("parse_floating_normal_fast", -307, 288, "sig x 10^exp with sig < 2^64 is a normal finite f64"),
+                                          ("parse_float_fast", -22, 37, "10^|exp| (resp. the split 10^(exp-22) x 10^22) is exact in f64")):
+        cs = [(b, t) for b, t in f.calls() if callee_is(t, callee)]
+        if len(cs) != 1:
+            ctx.ob("R07.8", f"{callee}:call", False, f.loc(), f"expected one call of {callee} in parse_float (fail closed)")
+            continue
+        lo, hi = _exp_interval(f, cs[0][0], expp)
+        ok = lo is not None and hi is not None and lo >= lo_min and hi <= hi_max
+        ctx.ob("R07.8", f"{callee}:exponent-range", ok, f.loc(cs[0][1]["ln"]),
+               f"{callee} is reached only for {lo} <= exp <= {hi}; safe range [{lo_min}, {hi_max}] ({why})" if ok else
+               f"{callee} is reached for exp in [{lo}, {hi}], outside the safe range [{lo_min}, {hi_max}] ({why}): infinite / NaN / denormal bit patterns are returned as Ok")
+
+
+def r07_6b(ctx, config="native"):
+    """x86 simd_str2int: the vector expression whose movemask marks the end of the digit run is evaluated
+    for all 256 byte values: a lane is marked iff its byte is not an ASCII digit"""
+    prog = ctx.prog(config)
+    from ..lanes import Lanes, Unsupported, ev
+    cands = [f for f in prog.fns.values() if f.name == "simd_str2int"]
+    if not cands:
+        ctx.fail_closed("R07.6b", "simd_str2int")
+        return
+    f = cands[0]
+    if "x86" not in f.file:
+        ctx.ob("R07.6b", "portable", True, f.loc(), "portable simd_str2int in this configuration: digits are recognised with is_ascii_digit", nontrivial=False)
+        return
+    mm = [(b, t) for b, t in f.calls() if t["callee"].rsplit("::", 1)[-1] == "_mm_movemask_epi8"]
+    if len(mm) != 1:
+        ctx.ob("R07.6b", "end-mask", False, f.loc(), "expected one movemask marking the end of the digits (fail closed)")
+        return
+    L = Lanes(prog)
+    try:
+        e = L._expr_of_operand(f, mm[0][1]["args"][0], 0, set(), mm[0][0])
+        bad = []
+        for v in range(256):
+            got = ev(e, v, 0)
+            if bool(got) != (not (48 <= v <= 57)):
+                bad.append(v)
+        ctx.ob("R07.6b", "end-mask", not bad, f.loc(mm[0][1]["ln"]),
+               "the end-of-digits lane mask, evaluated for all 256 byte values, marks exactly the non-digits" if not bad else
+               f"the end-of-digits lane mask treats bytes {[hex(v) for v in bad[:6]]} wrongly: e.g. a byte after the digits is consumed as a digit on this backend only")
+    except Unsupported as ex:
+        ctx.ob("R07.6b", "end-mask", False, f.loc(), f"digit classifier not recognised: {ex} (fail closed)")
+
+
+RULES = [("R07.1", r07_1), ("R07.3", r07_3), ("R07.4", r07_4), ("R07.5", r07_5), ("R07.6", r07_6), ("R07.6b", r07_6b), ("R07.7", r07_7), ("R07.8", r07_8)]
